@@ -30,10 +30,10 @@ type lin struct {
 	t   map[string]int
 }
 
-func linConst(k int) lin         { return lin{c: k} }
-func linTerm(name string) lin    { return lin{t: map[string]int{name: 1}} }
-func linTop() lin                { return lin{top: true} }
-func (a lin) isZero() bool       { return !a.top && a.c == 0 && len(a.t) == 0 }
+func linConst(k int) lin           { return lin{c: k} }
+func linTerm(name string) lin      { return lin{t: map[string]int{name: 1}} }
+func linTop() lin                  { return lin{top: true} }
+func (a lin) isZero() bool         { return !a.top && a.c == 0 && len(a.t) == 0 }
 func (a lin) isConst() (int, bool) { return a.c, !a.top && len(a.t) == 0 }
 
 func (a lin) add(b lin) lin { return a.comb(b, 1) }
@@ -196,9 +196,9 @@ type a3 struct {
 	delegTerm      map[*ast.CallExpr]string
 	delegEquiv     map[*ast.CallExpr]bool
 	// results
-	rule      string
-	onReturn  func(st a3State, ret *ast.ReturnStmt)
-	onStmt    func(st a3State, s ast.Stmt)
+	rule            string
+	onReturn        func(st a3State, ret *ast.ReturnStmt)
+	onStmt          func(st a3State, s ast.Stmt)
 	closureReported map[*ast.FuncLit]bool
 	eventSites      int
 	assignedVars    map[*types.Var]bool
